@@ -138,10 +138,16 @@ def algorithms_agree(ctx, n):
             ctx.violation({"kind": "E:algorithms", "gkf": txt, "errors": errs}, "gama-local failed: %s" % errs)
             continue
         if len(set(oks.values())) > 1:
-            bad += 1
-            ctx.violation({"kind": "E:algorithms-refusal", "gkf": txt, "adjusted_by": oks,
-                           "messages": {a: (outs[a]["run"].out + outs[a]["run"].err)[-300:] for a in ALGS}},
-                          "algorithms disagree on whether the network can be adjusted: %s" % oks)
+            # recorded finding (shared with C20): on a planted datum problem the algorithms remove different points; one of them may be
+            # left with nothing to adjust while the others go on with a part of the network
+            key = None
+            nadj = sum(1 for p in net["points"] if "adj" in p) if isinstance(net, dict) else None
+            if ill and nadj is not None and any(oks[a] and len(gama.adjusted_map(outs[a]["res"])) < nadj for a in ALGS):
+                key = "%s:removed-points-depend-on-algorithm" % ctx.pid
+            if ctx.violation({"kind": "E:algorithms-refusal", "gkf": txt, "adjusted_by": oks,
+                              "messages": {a: (outs[a]["run"].out + outs[a]["run"].err)[-300:] for a in ALGS}},
+                             "algorithms disagree on whether the network can be adjusted: %s" % oks, key=key):
+                bad += 1
             continue
         ctx.hist("outcome", "adjusted" if oks["gso"] else "refused")
         if not oks["gso"]:
